@@ -18,7 +18,9 @@ mode stall (consumers make exactly `cap` Acquire calls and then stop; then the c
   sink never exceed `M` (that no more than the channel capacity is left is part of the model's prediction, not of the Spec); a provider whose remaining ammo fit into the channel returns
   by itself (bound reached ⇒ returns promptly) having sent exactly `M`.
 mode engine (real core/engine, `inst` instances, shared `once(shots)` schedule, `shots = 0` = unlimited):
-  `Engine.Run` returns nil, exactly `min⁺(M, shots)` shots were made, `Engine.Wait` returns.
+  `Engine.Run` returns nil, exactly `min⁺(M, shots)` shots were made, `Engine.Wait` returns.  `idle=1`: the schedule
+  has no token at all — the instances finish at once and the engine cancels the provider wherever it is (with `gate=k`:
+  inside its k-th file operation, e.g. in the middle of LoadAmmo): still nil, 0 shots, `Wait` returns.
 -/
 namespace Pandora.Spec.C08
 
@@ -192,19 +194,21 @@ structure EngObs where
   seqOk : Bool
   deriving Repr
 
-/-- `shots = 0` = unlimited schedule -/
-def engWant (c : Cell) (shots : Nat) : Option Nat :=
+/-- `shots = 0` = unlimited schedule; `idle` = a schedule without any token (the run shoots nothing: instances finish
+at once and the engine cancels the provider, possibly while it is still loading its ammo) -/
+def engWant (c : Cell) (shots : Nat) (idle : Bool := false) : Option Nat :=
+  if idle then some 0 else
   match expected c.limit c.passes c.n with
   | some m => some (if shots = 0 then m else min m shots)
   | none => if shots = 0 then none else some shots
 
-def engHolds (c : Cell) (shots : Nat) (o : EngObs) : Bool :=
-  engWant c shots == some o.shots && o.errNil && o.wait && o.seqOk
+def engHolds (c : Cell) (shots : Nat) (o : EngObs) (idle : Bool := false) : Bool :=
+  engWant c shots idle == some o.shots && o.errNil && o.wait && o.seqOk
 
-def engJudge (c : Cell) (shots : Nat) (o : EngObs) : String :=
+def engJudge (c : Cell) (shots : Nat) (o : EngObs) (idle : Bool := false) : String :=
   if o.errText == "hang" then "fail:hang:Engine.Run does not return"
   else if !o.errNil then s!"fail:engine-error:Engine.Run returned {o.errText}"
-  else if engWant c shots != some o.shots then s!"fail:count:{o.shots} shots, expected {match engWant c shots with | some w => toString w | none => "?"}"
+  else if engWant c shots idle != some o.shots then s!"fail:count:{o.shots} shots, expected {match engWant c shots idle with | some w => toString w | none => "?"}"
   else if !o.seqOk then "fail:order:the shot ammo are not the entries of the file in cyclic order"
   else if !o.wait then "fail:hang:Engine.Wait does not return (provider still running)"
   else "ok"
